@@ -139,9 +139,12 @@ def gkl_kernel(ri, nr, rad, stfunc='kolmogorov', outerscale=None):
 
     for i in range(nr):
         for j in range(i + 1):
-            radius = 0.5 * np.sqrt(rad[i]**2 + rad[j]**2 -
-                                   2 * rad[i] * rad[j] *
-                                   np.cos(np.arange(nth) * 2 * np.pi / nth))
+            # squared distance; rounding can leave the zero distance (i == j,
+            # zero angle) slightly negative, which sqrt would turn into NaN
+            dist2 = (rad[i]**2 + rad[j]**2 -
+                     2 * rad[i] * rad[j] *
+                     np.cos(np.arange(nth) * 2 * np.pi / nth))
+            radius = 0.5 * np.sqrt(np.maximum(dist2, 0))
             if (stfunc == 'kolmogorov') or (stfunc == 'kolstf'):
                 sf = stf_kolmogorov(radius)
             elif (stfunc == 'vonKarman') or (stfunc == 'karman') or \
